@@ -31,6 +31,7 @@ CT = 'commands::test'
 EC = 'rules::eval_context'
 
 UNITS = {
+    'U-unary-probe': dict(functions='probe', cls='probe', quick=reg('rules::eval', ['k_un_exists_int', 'k_un_var_empty_unres']), thorough=[], assumptions=[], timeout=1200, mem_gb=10),
     'U-failed': dict(functions='eval_context::report_all_failed_clauses_for_rules', cls='bounded (2 rule records x status x 3 payload-free child configurations)',
                      quick=reg('rules::eval_context', ['k_report_failed_rules']), thorough=[], assumptions=[STUBS[0]], timeout=900, mem_gb=8),
     'U-binflip': dict(functions='operators: impl Comparator for (CmpOperator, bool), CmpOperator, EqOperation, InOperation, CommonOperator, match_value',
@@ -38,10 +39,15 @@ UNITS = {
                       quick=reg('rules::eval::operators', ['k_flip_eq', 'k_flip_lt', 'k_flip_le', 'k_flip_gt', 'k_flip_ge', 'k_flip_in', 'k_flip_not_comparable']),
                       thorough=[], assumptions=STUBS, timeout=900, mem_gb=8),
     'U-unary': dict(functions='eval::unary_operation (+ exists/empty/is_* helpers, not_operation, inverse_operation, record_unary_clause)',
-                    cls='bounded (single selected value of each of 9 value kinds, empty selection, bare-variable special case); complete in operator-not x prefix-not',
-                    quick=reg('rules::eval', ['k_unary_exists', 'k_unary_empty', 'k_unary_is_string', 'k_unary_is_list', 'k_unary_is_map', 'k_unary_is_bool',
-                                              'k_unary_is_int', 'k_unary_is_float', 'k_unary_is_null', 'k_unary_empty_on_variable']),
-                    thorough=[], assumptions=STUBS + ['Map values not exercised (IndexMap cannot be built under Kani)'], timeout=900, mem_gb=8),
+                    cls='bounded (one selected value of a representative value kind per operator, empty selection, bare-variable special case); complete in operator-not x prefix-not',
+                    quick=reg('rules::eval', ['k_un_exists_int', 'k_un_exists_unres', 'k_un_empty_str0', 'k_un_empty_str1', 'k_un_empty_int_err', 'k_un_empty_unres',
+                                              'k_un_isstring_str', 'k_un_isstring_int', 'k_un_isint_unres', 'k_un_exists_nosel',
+                                              'k_un_var_empty_int', 'k_un_var_empty_null', 'k_un_var_empty_unres', 'k_un_var_empty_nosel']),
+                    thorough=reg('rules::eval', ['k_un_empty_list0', 'k_un_empty_list1', 'k_un_empty_null_err', 'k_un_empty_bool', 'k_un_empty_float_err',
+                                                 'k_un_islist_list', 'k_un_islist_int', 'k_un_ismap_int', 'k_un_isbool_bool', 'k_un_isbool_int', 'k_un_isint_int',
+                                                 'k_un_isint_str', 'k_un_isfloat_float', 'k_un_isfloat_int', 'k_un_isnull_null', 'k_un_isnull_int', 'k_un_exists_null',
+                                                 'k_un_var_exists_nosel']),
+                    assumptions=STUBS + ['Map values not exercised (IndexMap cannot be built under Kani)'], timeout=900, mem_gb=8),
     'U-idx': dict(functions='eval_context::retrieve_index', cls='complete in index: i32, bounded in the list (0..2 elements)',
                   quick=reg(EC, ['k_retrieve_index']), thorough=[], assumptions=[STUBS[0]], timeout=600),
     'U-rec': dict(functions='RecordTracker::start_record/end_record', cls='bounded (all sequences of 4 operations over two contexts)',
